@@ -26,6 +26,7 @@ type GenOpts struct {
 	MaxTuples   int
 	MinTuples   int
 	ForceShapes bool // bias towards recursion/ttu shapes where strategies differ
+	MultiParent float64 // probability that doc#parent admits a second parent type (default 0.3)
 }
 
 func pick[T any](r *rand.Rand, xs []T) T { return xs[r.Intn(len(xs))] }
@@ -186,6 +187,23 @@ func GenModel(r *rand.Rand, opts GenOpts) (m *Model, rejected int) {
 					def.Restr = []Restr{{T: "folder"}}
 					if len(condNames) > 0 && chance(r, 0.15) {
 						def.Restr = append(def.Restr, Restr{T: "folder", Cond: pick(r, condNames)})
+					}
+					// a second parent type (documents nested in documents), possibly with its own
+					// condition set, so tuple-to-userset rewrites fan out over several types
+					pMulti := 0.3
+					if opts.MultiParent > 0 {
+						pMulti = opts.MultiParent
+					}
+					if t == "doc" && chance(r, pMulti) {
+						x := Restr{T: "doc"}
+						if len(condNames) > 0 && chance(r, 0.6) {
+							x.Cond = pick(r, condNames)
+						}
+						if chance(r, 0.5) {
+							def.Restr = append(def.Restr, x)
+						} else {
+							def.Restr = append([]Restr{x}, def.Restr...)
+						}
 					}
 				} else {
 					used := false
@@ -384,7 +402,7 @@ func GenTuples(r *rand.Rand, m *Model, opts GenOpts) []Tuple {
 		}
 		if t.C != "" {
 			c := m.Cond(t.C)
-			fl := pick(r, []string{"T", "T", "F", "none", "none", "missing", "mistyped"})
+			fl := pick(r, []string{"T", "T", "T", "T", "F", "none", "none", "none", "missing", "mistyped"})
 			if len(c.Params) == 1 && fl == "missing" {
 				fl = "none"
 			}
@@ -458,7 +476,8 @@ func GenReqCtxs(r *rand.Rand, m *Model) []Ctx {
 		}
 		return out
 	}
-	return []Ctx{{}, mk("T"), mk("F"), mk("mix")}
+	t := mk("T")
+	return []Ctx{{}, t, t, t, mk("F"), mk("mix")}
 }
 
 type Req struct {
